@@ -698,7 +698,11 @@ def apply_event(objs, ev, params=NOPARAMS):
         finally:
             arr[:] = 0              # ... and for the matrix handed to Unitary
     elif name == "herald":
-        objs[t].herald(a[0], mode_arg(a[1]), mode_arg(a[2]))
+        # the documented short form herald(n, mode) means "same mode at input and output": used whenever it applies
+        if a[1] == a[2] and a[1] >= 0:
+            objs[t].herald(a[0], mode_arg(a[1]))
+        else:
+            objs[t].herald(a[0], mode_arg(a[1]), mode_arg(a[2]))
     elif name == "add":
         MODE_FORMS["names"] = MODE_FORMS.get("names", 0) + 1
         if a[2] and MODE_FORMS["names"] % 4 == 0:
